@@ -29,7 +29,9 @@ ASSUMPTIONS = [
 
 KEYS = [("a", False), ("b", False), ("c", False), ("a", False), ("b", False), ("1", False), ("1.0", False), ("0x1", False),
         ("true", False), ("1", True), ("~", False), ("null", False), ("x y", False), ("2001-01-01", False), ("d", False),
-        ("<<", True), ("0o1", False), ("01", False), ("60", False), ("yes", False), ("True", False)]
+        ("<<", True), ("0o1", False), ("01", False), ("60", False), ("yes", False), ("True", False),
+        # scalar nodes whose tag makes them build an unhashable value (or fail): ill-shaped keys
+        ("!!seq x", False), ("!!map x", False), ("!!set x", False), ("!!omap x", False), ("!!str k", False), ("!!int 1", False)]
 VALUES = [("1", False), ("2", False), ("x", False), ("y", False), ("z", False), ("", True), ("~", False), ("true", False),
           ("3.5", False), ("own", False), ("merged", False), ("first", False), ("second", False), ("2001-01-01", False)]
 
